@@ -256,24 +256,23 @@ def try_type_rewrite(
 ) -> None:
     schema = ctx.env.schema
     rw_key = (stype, skip_subtypes)
-    type_rewrites = ctx.env.type_rewrites
 
     # Make sure the base types in unions and intersections have their
     # rewrites compiled
     if stype.is_compound_type(schema):
-        type_rewrites[rw_key] = None
+        ctx.env.type_rewrites[rw_key] = None
         objs = (
             stype.get_union_of(schema).objects(schema) +
             stype.get_intersection_of(schema).objects(schema)
         )
         for obj in objs:
             srw_key = (obj, skip_subtypes)
-            if srw_key not in type_rewrites:
+            if srw_key not in ctx.env.type_rewrites:
                 try_type_rewrite(
                     stype=obj, skip_subtypes=skip_subtypes, ctx=ctx)
                 # Mark this as having a real rewrite if any parts do
-                if type_rewrites[srw_key]:
-                    type_rewrites[rw_key] = True
+                if ctx.env.type_rewrites[srw_key]:
+                    ctx.env.type_rewrites[rw_key] = True
         return
 
     # What we *hope* to do, is to just directly select from the view
@@ -296,7 +295,7 @@ def try_type_rewrite(
 
     pols = get_access_policies(stype, ctx=ctx)
     if not pols and not children_have_policies:
-        type_rewrites[rw_key] = None
+        ctx.env.type_rewrites[rw_key] = None
         return
 
     # TODO: caching?
@@ -312,7 +311,7 @@ def try_type_rewrite(
             children_overlap = True
 
     # Put a placeholder to prevent recursion.
-    type_rewrites[rw_key] = None
+    ctx.env.type_rewrites[rw_key] = None
 
     sets = []
     # Generate the the filters for the base type we are actually considering.
@@ -385,7 +384,7 @@ def try_type_rewrite(
     else:
         rewritten_set = None
 
-    type_rewrites[rw_key] = rewritten_set
+    ctx.env.type_rewrites[rw_key] = rewritten_set
 
 
 def compile_dml_write_policies(
